@@ -36,6 +36,7 @@ type Engine struct {
 	ghosts    map[string]GhostDecl
 	assumedUsed map[string]bool
 	frozenIDs   map[string]bool // printed literal of frozen global object ids
+	pureMemo    map[*ssa.Function]int
 	allocTypes  map[string]types.Type
 	allocArr    map[string]types.Type
 }
